@@ -21,6 +21,7 @@ HARNESSES['cbr_rejects_bad_p_f64'] = ('statistics', 'complete', 'loop-free prefi
 HARNESSES['cbr_rejects_bad_p_f32'] = ('statistics', 'complete', 'loop-free prefix; all f32 bit patterns outside (0,1) or non-finite; code after the assertion must be unreachable')
 HARNESSES['cbr_quantile_argument_f32'] = ('statistics', 'complete', 'all f32 probabilities in (0,1); distrs::StudentsT::ppf stubbed by a probe that records its arguments')
 HARNESSES['cbr_quantile_argument_f64'] = ('statistics', 'complete', 'all f64 probabilities in (0,1); distrs::StudentsT::ppf stubbed by a probe that records its arguments')
+HARNESSES['castf64_impls_are_plain_casts'] = ('statistics', 'complete', 'loop-free; all f64 and f32 bit patterns; both CastF64 impls and their ZERO / ONE constants')
 HARNESSES['stats_error_from_model_error'] = ('statistics', 'complete', 'loop-free; all payload values of two ModelError variants')
 HARNESSES['is_all_finite_2x2'] = ('levmar', 'bounded', '2 x 2 matrix, all f64 bit patterns, unwind 6')
 HARNESSES['to_vector_colmajor_3x2'] = ('levmar', 'bounded', '3 x 2 matrix, symbolic entries and position, unwind 8')
